@@ -1,4 +1,5 @@
 import GrVerif.Proofs.Lines
+import GrVerif.Gen.Justify
 /-!
 # C19 — line breaking and justification keep every line a well-formed chain   (partial)
 
@@ -44,6 +45,29 @@ example : Linked seg3 [0, 1, 2] ∧ Clean seg3 [0, 1, 2] := by
 example : ((seg3.linebreakBefore 1).map fun s => ((s.get 0).next, (s.get 1).prev, (s.get 1).next)) = some (none, none, some 2) := by decide
 example : ((seg3.addLineEnd (some 2) 64).bind fun (e, s) => (s.delLineEnd e).map fun s => ((s.get 1).next, (s.get 2).prev, s.first, s.last)) =
     some (some 2, some 1, some 0, some 2) := by decide
+
+/-! ### the records of the justification block (`Segment::newJustify`, `SlotJustify::size_of`)
+
+`Segment::newJustify` allocates one block of `m_bufSize` records of `SlotJustify::size_of(levels)` bytes each and links them through
+their `next` pointers: record `k` starts `k * size_of(levels)` bytes into a `malloc`ed block.  `Gen/Justify.lean` is the expression of
+`size_of` as `src/inc/Slot.h` has it on this run.  For every number of justification levels a font may declare the stride is a multiple
+of the pointer size - so every record is aligned for its `next` pointer - and covers the record - so records do not overlap.  (With the
+pinned expression, 14 + 10 * levels, the first fails at two levels: fix 3f1d1e20.) -/
+theorem slotjustify_stride_is_pointer_aligned (levels : Nat) : Gen.Justify.sizeOf levels % Gen.Justify.ptrSize = 0 := by
+  simp only [Gen.Justify.sizeOf, Gen.Justify.ptrSize, Gen.Justify.sizeofSlotJustify, Gen.Justify.NUMJUSTPARAMS]
+  split <;> omega
+
+theorem slotjustify_records_are_aligned (levels k : Nat) : (k * Gen.Justify.sizeOf levels) % Gen.Justify.ptrSize = 0 := by
+  rw [Nat.mul_mod, slotjustify_stride_is_pointer_aligned, Nat.mul_zero, Nat.zero_mod]
+
+/-- the record: the struct (which holds `values[0]`) and `levels * NUMJUSTPARAMS - 1` more `int16` values -/
+theorem slotjustify_records_do_not_overlap (levels : Nat) :
+    Gen.Justify.sizeofSlotJustify + ((max levels 1) * Gen.Justify.NUMJUSTPARAMS - 1) * 2 ≤ Gen.Justify.sizeOf levels := by
+  simp only [Gen.Justify.sizeOf, Gen.Justify.ptrSize, Gen.Justify.sizeofSlotJustify, Gen.Justify.NUMJUSTPARAMS]
+  rcases Nat.lt_or_ge 1 levels with h | h
+  · rw [if_pos h, Nat.max_eq_left (by omega)]; omega
+  · rw [if_neg (by omega), Nat.max_eq_right h]; omega
+
 
 /-! ### the two line-end slots of `Segment::justify` in front of the same slot (evaluated instances, not theorems over all streams)
 
